@@ -9,6 +9,7 @@ from gen import stepgen
 PROPERTY = "C04"
 PROPS_VO = "Props/C04"
 AXIOMS_OK = []
+KNOWN_ARGS = "pair"     # the known-class suite looks at (case observed)
 KNOWN_SUITE = {"run": "scalar.known"}
 INT2 = ["INTEGER.+", "INTEGER.-", "INTEGER.*", "INTEGER./", "INTEGER.%", "INTEGER.<", "INTEGER.=", "INTEGER.>", "INTEGER.MAX", "INTEGER.MIN"]
 FLT2 = ["FLOAT.+", "FLOAT.-", "FLOAT.*", "FLOAT./", "FLOAT.%", "FLOAT.<", "FLOAT.=", "FLOAT.>", "FLOAT.MAX", "FLOAT.MIN"]
